@@ -116,6 +116,32 @@ claim("C17", "guard-obligation with exact relation; control-dependence check; ex
       "in signed arithmetic with + wordLen-1; matcher guard exactly `dist > DictLen()`. The compression-ratio bounds themselves (match-finder effectiveness) are NOT decided "
       "and exit 0 says nothing about them.", TRUST, "DESIGN.md §4 C17")
 
+claim("C02", "specification constants, finite-domain evaluation of codec tables/encodings, expression/coverage templates over the SSA, wiring and typestate rules",
+      "Decides that the writer-side tables, constants, formulas and wiring equal the formats' - exactly the things reader and writer SHARE, so that a deviation keeps every "
+      "round-trip test green: ~45 constants, magic bytes, polynomials, padLen, check ids, little-endian and uvarint encodings, CRC coverage of header/footer/block header/index, "
+      "record order, unpadded-size and backward-size formulas, block trailer, chunk header codec and sequencing, dictionary-size code, coder state tables, probability update, "
+      "context formulas, codec geometry. Not decided: that an independent decoder recovers the bytes (range-coder arithmetic, codec loops); raw-chunk 64 KiB bound.",
+      TRUST + "Specification values frozen in tm.go / tables.go.", "DESIGN.md §4 C02")
+
+claim("C03", "finite-domain table extraction vs specification (completeness direction), per-kind path rules, symbolic extraction of the rep permutation per decision path",
+      "Decides that the reader-side tables accept at least everything the format allows and apply the prescribed resets, and that every decision path of decoder.readOp "
+      "updates rep distances / coder state / length coder as the LZMA operation tree prescribes (symbolic walk), plus window = max(declared, configured), size fields by flag "
+      "and order, fresh check per block, model constants/tables/formulas = specification. These are the constructs a greedy in-house encoder never emits (rep2/rep3 chains, "
+      "mid-stream property changes, dictionary resets), so no existing test reaches them. Not decided: bit-level decoding and ring-buffer copying; equality with a reference decoder.",
+      TRUST, "DESIGN.md §4 C03")
+
+claim("C06", "finite-domain evaluation of the header codec; guard obligations and event rules for the explicit-size contract",
+      "Decides the contract plumbing: header codec both ways with the all-ones size exactly for size < 0; Close fails with errSize unless written == announced size, before the "
+      "encoder is closed; Write computes remaining = size - (Compressed()+Buffered()), truncates and reports ErrNoSpace; fill() guarantees SizeInHeader || EOSMarker; the end "
+      "marker is written exactly when requested; properties byte codec; reader window; matcher guards; no sink error masked. Not decided: losslessness.",
+      TRUST, "DESIGN.md §4 C06")
+
+claim("C07", "specification tables/constants by finite-domain evaluation, symbolic rep-permutation extraction, must-precede rule",
+      "Decides: the model shared by encoder and decoder (state rows, probability update, context formulas, codec geometry, constants) equals the LZMA specification; every "
+      "decision path of readOp matches the operation tree; header codec; reader window = max(header, configured, 4096); the declared size is tested before the first operation "
+      "is read on every path (size 0 without marker ends cleanly). Not decided: the reference decoder's verdict on emitted bytes; range-coder bit-exactness.",
+      TRUST, "DESIGN.md §4 C07")
+
 NOT_YET = "not yet decided: rules under construction (DESIGN.md §10); no claim is made"
 
 def main():
